@@ -28,10 +28,24 @@ func runC13(c map[string]interface{}) []Event {
 	switch str(c["kind"]) {
 	case "line":
 		l := geom.LineString(decPath(c["curve"], intDec))
+		// optional magnitude shift: coordinates and tolerance times 2^sh (exact), result divided again
+		sh := 0
+		if v, ok := c["sh"]; ok {
+			sh = num(v)
+		}
+		f := math.Ldexp(1, sh)
+		for i := range l {
+			l[i].X *= f
+			l[i].Y *= f
+		}
 		before := append(geom.LineString{}, l...)
 		e["out"] = safely(func() {
-			r := l.Simplify(tol).(geom.LineString)
-			e["res"] = encIntPath(r)
+			r := l.Simplify(tol * f).(geom.LineString)
+			back := make([]geom.Point, len(r))
+			for i, p := range r {
+				back[i] = geom.Point{X: p.X / f, Y: p.Y / f}
+			}
+			e["res"] = encIntPath(back)
 		})
 		e["inputsame"] = reflect.DeepEqual(before, l)
 	case "poly":
@@ -154,7 +168,8 @@ func randomC13(rng *rand.Rand, n int) []map[string]interface{} {
 		for t > span*span/2+3 {
 			t = safeTol2[rng.Intn(len(safeTol2))]
 		}
-		out = append(out, map[string]interface{}{"kind": "line", "curve": curve, "tol2": t})
+		sh := []int{0, 0, -10, -10, -6, 10, 30}[rng.Intn(7)]
+		out = append(out, map[string]interface{}{"kind": "line", "curve": curve, "tol2": t, "sh": sh})
 	}
 	return out
 }
